@@ -733,14 +733,15 @@ class ScaledArrayView(ArrayView):
         return self.array.ndim > 1
 
     def max(self, *args, **kwargs):
-        if self._is_multi_element() or args or kwargs:
-            # each element has its own scale and offset, and arguments
-            # such as `initial` are expressed in scaled values
+        if self._is_multi_element() or args or kwargs or not np.all(self.scale > 0):
+            # each element has its own scale and offset, arguments
+            # such as `initial` are expressed in scaled values, and
+            # a scale that is not positive does not keep the order
             return np.array(self).max(*args, **kwargs)
         return self._apply_scale(self.array.max())
 
     def min(self, *args, **kwargs):
-        if self._is_multi_element() or args or kwargs:
+        if self._is_multi_element() or args or kwargs or not np.all(self.scale > 0):
             return np.array(self).min(*args, **kwargs)
         return self._apply_scale(self.array.min())
 
